@@ -106,3 +106,24 @@ def bit_of(byte, k):
         from engine import chmodels
         return chmodels.bit_of(byte, k)
     return (byte >> k) & 1 == 1
+
+
+def crc16(data):
+    """CRC-16/Modbus register value of data (low byte goes first on the wire).
+
+    Concrete replay: the bit-serial reference of spec/checksums.py. Under the solver: the same
+    uninterpreted fold the computeCRC contract uses (lemma K1 ties the real loop body to the reference step),
+    so 'frame carries crc16(body)' means the same thing on both sides of an equality."""
+    if STATE["symbolic"]:
+        from engine import chmodels
+        return chmodels.crc_fold(data)
+    from spec.checksums import crc16_modbus
+    return crc16_modbus(bytes(data))
+
+
+def hex2(v):
+    """two upper-case hex characters (bytes) for a byte value"""
+    if STATE["symbolic"]:
+        from engine import chmodels
+        return chmodels.hex2_upper(v)
+    return b"%02X" % v
